@@ -119,6 +119,13 @@ def big_arrays(sc):
         out.append(np.arange(2 * (n // 2), dtype=np.int64).reshape(n // 2, 2))
         b = np.arange(n, dtype=np.int64) - 3  # negatives: the unique fallback
         out.append(b)
+    # many distinct values WITH repeats (17-40 distinct, dense: the numpy.where strategy well above its small-input shortcut)
+    for n, k in ((19, 17), (24, 17), (48, 24), (90, 40)):
+        a = np.array([(i * 7 + (i // 5)) % k for i in range(n)], dtype=np.int64)
+        out.append(a)
+        out.append(a[::-1].copy() - 2)  # with negatives: the unique() counting fallback
+        if n % 2 == 0:
+            out.append(a.reshape(n // 2, 2))
     # many raw values mapped onto the common one: row-scan with a many-to-one mapping and few uncommon cells
     c = np.array(([0, 1] * 60)[:116] + [2, 3, 4, 5], dtype=np.int64)
     out.append(c)
